@@ -26,12 +26,12 @@ type VerifC04Msg struct {
 
 // VerifC04Part is one partition of the set / of the decoded request.
 type VerifC04Part struct {
-	Topic     string
-	Partition int32
-	Msgs      []*ProducerMessage // partitionSet.msgs, in order
-	Decoded   Records            // what decodeRequest returned for this partition
+	Topic      string
+	Partition  int32
+	Msgs       []*ProducerMessage // partitionSet.msgs, in order
+	Decoded    Records            // what decodeRequest returned for this partition
 	HasDecoded bool
-	Retries   []int // VerifC04Steer only: retries of Msgs
+	Retries    []int // VerifC04Steer only: retries of Msgs
 }
 
 type VerifC04Result struct {
